@@ -19,7 +19,12 @@ def gen_cases(tier, seed, configs):
         H = gen.pick_height(r, D, big=(tier != "quick"))
         if periodic and H < 2:
             H = 2
-        kind, src, tgt = tsm.gen_sets(r, D, H)
+        deep = r.random() < 0.06
+        if deep:
+            H = gen.pick_height_deep(r, D)       # leaf indices beyond 31 bits, few particles
+        kind, src, tgt = tsm.gen_sets(r, D, H, max_n=6 if deep else 48)
+        if deep:
+            src, tgt = src[:8], tgt[:8]
         nleaves = max(len(set(src)), len(set(tgt)))
         bs = gen.pick_bs(r, nleaves)
         mode = r.randrange(2)
